@@ -1,9 +1,542 @@
-(* Proofs/Gauss.v — C08: Gaussian elimination (R instance). *)
+(* Proofs/Gauss.v — C08: Gaussian elimination and triangular substitution (R instance).
+
+   Plan (DESIGN "### C08"):  the forward elimination keeps the invariant
+     "every solution of the current effective system solves the original one,
+      and all pivots passed so far are non-zero",
+   where the effective system reads the stale entries left of the diagonal in
+   already eliminated columns as 0 ([eff]).  Back substitution then solves the
+   upper-triangular effective system.  No determinants are used. *)
 From Coq Require Import ZArith List Bool Arith Reals Lra Lia.
 From SV Require Import Base.Num Base.Outcome Base.Mat Model.Subst Model.Gauss.
 Import ListNotations.
 Local Open Scope R_scope.
 
+(* ---------------------------------------------------------------- finite sums *)
+Fixpoint Rsum_n (n : nat) (f : nat -> R) : R :=
+  match n with O => 0 | S m => Rsum_n m f + f m end.
+
+Ltac bdestr :=
+  repeat match goal with
+  | |- context [Nat.eqb ?a ?b] => destruct (Nat.eqb_spec a b)
+  | |- context [Nat.ltb ?a ?b] => destruct (Nat.ltb_spec a b)
+  | |- context [Nat.leb ?a ?b] => destruct (Nat.leb_spec a b)
+  end; cbn [andb orb negb].
+
+Lemma Rsum_n_ext n f g : (forall j, (j < n)%nat -> f j = g j) -> Rsum_n n f = Rsum_n n g.
+Proof.
+  induction n as [|n IH]; intro H; [reflexivity|].
+  cbn [Rsum_n]. rewrite IH, (H n) by (intros; try apply H; lia). reflexivity.
+Qed.
+
+Lemma Rsum_n_plus n f g : Rsum_n n (fun j => f j + g j) = Rsum_n n f + Rsum_n n g.
+Proof. induction n as [|n IH]; cbn [Rsum_n]; [ring|rewrite IH; ring]. Qed.
+
+Lemma Rsum_n_scal n c f : Rsum_n n (fun j => c * f j) = c * Rsum_n n f.
+Proof. induction n as [|n IH]; cbn [Rsum_n]; [ring|rewrite IH; ring]. Qed.
+
+Lemma Rsum_n_zero n f : (forall j, (j < n)%nat -> f j = 0) -> Rsum_n n f = 0.
+Proof.
+  induction n as [|n IH]; intro H; [reflexivity|].
+  cbn [Rsum_n]. rewrite IH, (H n) by (intros; try apply H; lia). ring.
+Qed.
+
+Lemma Rsum_n_delta n k c : (k < n)%nat -> Rsum_n n (fun j => if (j =? k)%nat then c else 0) = c.
+Proof.
+  induction n as [|n IH]; intro H; [lia|]. cbn [Rsum_n].
+  destruct (Nat.eqb_spec n k) as [E|E].
+  - subst k. rewrite Rsum_n_zero; [ring|]. intros j Hj. bdestr; [lia|reflexivity].
+  - rewrite IH by lia. ring.
+Qed.
+
+Lemma Rsum_n_swap n m (f : nat -> nat -> R) :
+  Rsum_n n (fun i => Rsum_n m (fun j => f i j)) = Rsum_n m (fun j => Rsum_n n (fun i => f i j)).
+Proof.
+  induction n as [|n IH]; cbn [Rsum_n].
+  - symmetry. apply Rsum_n_zero. reflexivity.
+  - rewrite IH, <- Rsum_n_plus. reflexivity.
+Qed.
+
+Lemma Rsum_n_trunc n i f : (i <= n)%nat ->
+  Rsum_n n (fun j => if (j <? i)%nat then f j else 0) = Rsum_n i f.
+Proof.
+  induction n as [|n IH]; intro H.
+  - replace i with 0%nat by lia. reflexivity.
+  - cbn [Rsum_n]. destruct (Nat.ltb_spec n i) as [L|L].
+    + replace i with (S n) by lia. cbn [Rsum_n]. f_equal.
+      apply Rsum_n_ext. intros j Hj. bdestr; [reflexivity|lia].
+    + rewrite IH by lia. ring.
+Qed.
+
+(* the left-to-right accumulation of the code is the mathematical sum *)
+Lemma sum_range_R (init : R) lo len (f : nat -> R) :
+  sum_range init lo len f = init + Rsum_n (lo + len) (fun j => if (j <? lo)%nat then 0 else f j).
+Proof.
+  unfold sum_range. induction len as [|len IH].
+  - rewrite Nat.add_0_r. cbn [for_range]. rewrite Rsum_n_zero; [ring|].
+    intros j Hj. bdestr; [reflexivity|lia].
+  - rewrite for_range_S, IH. cbn [nadd RNum].
+    replace (lo + S len)%nat with (S (lo + len)) by lia. cbn [Rsum_n].
+    bdestr; [lia|ring].
+Qed.
+
+(* ---------------------------------------------------------------- loops *)
+Lemma for_range_rev_inv {A} (P : nat -> A -> Prop) lo len (body : nat -> A -> A) acc :
+  P (lo + len)%nat acc ->
+  (forall i a, (lo <= i < lo + len)%nat -> P (S i) a -> P i (body i a)) ->
+  P lo (for_range_rev lo len body acc).
+Proof.
+  revert acc. induction len as [|len IH]; intros acc H0 Hs.
+  - now rewrite Nat.add_0_r in H0.
+  - cbn [for_range_rev]. apply IH.
+    + apply Hs; [lia|]. replace (S (lo + len)) with (lo + S len)%nat by lia. exact H0.
+    + intros i a Hi. apply Hs. lia.
+Qed.
+
+(* ---------------------------------------------------------------- substitution *)
+Lemma back_substitution_solves (a : mat R) n (b s0 : vec R) :
+  (0 < n)%nat -> (forall i, (i < n)%nat -> a i i <> 0) ->
+  exists x, back_substitution a n b s0 = Ok x /\
+    forall i, (i < n)%nat -> Rsum_n n (fun j => (if (j <? i)%nat then 0 else a i j) * x j) = b i.
+Proof.
+  intros Hn Hd. destruct n as [|m]; [lia|].
+  unfold back_substitution. eexists. split; [reflexivity|].
+  match goal with |- context [for_range_rev 0 m ?bd ?s] => set (body := bd); set (s1 := s) end.
+  pose (P := fun (t : nat) (sol : vec R) =>
+    forall i, (t <= i < S m)%nat ->
+      Rsum_n (S m) (fun j => (if (j <? i)%nat then 0 else a i j) * sol j) = b i).
+  assert (HP : P 0%nat (for_range_rev 0 m body s1)).
+  { apply (for_range_rev_inv P).
+    - intros i Hi. assert (i = m) by lia. subst i. cbn [Rsum_n].
+      rewrite Rsum_n_zero.
+      + bdestr; [lia|]. unfold s1. rewrite vset_same. cbn [ndiv RNum]. field. apply Hd. lia.
+      + intros j Hj. bdestr; [ring|lia].
+    - intros i sol Hi HS i' Hi'. unfold body.
+      rewrite sum_range_R. cbn [n0 nmul nsub ndiv RNum].
+      replace (S i + (S m - S i))%nat with (S m) by lia.
+      set (sum := Rsum_n (S m) (fun j0 : nat => if (j0 <? S i)%nat then 0 else a i j0 * sol j0)).
+      destruct (Nat.eq_dec i' i) as [E|E].
+      + subst i'.
+        rewrite (Rsum_n_ext _ _ (fun j => (if (j =? i)%nat then a i i * ((b i - (0 + sum)) / a i i) else 0)
+                                           + (if (j <? S i)%nat then 0 else a i j * sol j))).
+        * rewrite Rsum_n_plus, Rsum_n_delta by lia. fold sum. field. apply Hd. lia.
+        * intros j Hj. unfold vset. bdestr; try lia; subst; ring.
+      + rewrite <- (HS i') by lia. apply Rsum_n_ext. intros j Hj.
+        unfold vset. bdestr; try lia; subst; ring. }
+  intros i Hi. apply HP. lia.
+Qed.
+
+Lemma forward_substitution_solves (a : mat R) n (b s0 : vec R) :
+  (forall i, (i < n)%nat -> a i i <> 0) ->
+  forall i, (i < n)%nat ->
+    Rsum_n n (fun j => (if (i <? j)%nat then 0 else a i j) * forward_substitution a n b s0 j) = b i.
+Proof.
+  intros Hd. unfold forward_substitution.
+  match goal with |- context [for_range 0 n ?bd s0] => set (body := bd) end.
+  pose (P := fun (t : nat) (sol : vec R) =>
+    forall i, (i < t)%nat -> Rsum_n n (fun j => (if (i <? j)%nat then 0 else a i j) * sol j) = b i).
+  assert (HP : forall len, (len <= n)%nat -> P (0 + len)%nat (for_range 0 len body s0)).
+  { intros len Hlen. apply (for_range_inv P).
+    - intros i Hi. lia.
+    - intros i sol Hi HS i' Hi'. unfold body.
+      rewrite sum_range_R. cbn [n0 nmul nsub ndiv RNum]. cbn [Nat.add].
+      set (sum := Rsum_n i _).
+      destruct (Nat.eq_dec i' i) as [E|E].
+      + subst i'.
+        rewrite (Rsum_n_ext _ _ (fun j => (if (j =? i)%nat then a i i * ((b i - (0 + sum)) / a i i) else 0)
+                                           + (if (j <? i)%nat then a i j * sol j else 0))).
+        * rewrite Rsum_n_plus, Rsum_n_delta, Rsum_n_trunc by lia.
+          replace (Rsum_n i (fun j => a i j * sol j)) with sum.
+          -- field. apply Hd. lia.
+          -- unfold sum. apply Rsum_n_ext. intros j Hj. bdestr; [lia|reflexivity].
+        * intros j Hj. unfold vset. bdestr; try lia; subst; ring.
+      + rewrite <- (HS i') by lia. apply Rsum_n_ext. intros j Hj.
+        unfold vset. bdestr; try lia; subst; ring. }
+  intros i Hi. apply (HP n (le_n n)). lia.
+Qed.
+
+Lemma c08_substitution : forall (n : nat) (a : mat R) (b s0 : vec R),
+  (0 < n)%nat -> (forall i, (i < n)%nat -> a i i <> 0) ->
+  (exists x, back_substitution a n b s0 = Ok x /\
+     forall i, (i < n)%nat -> Rsum_n n (fun j => (if (j <? i)%nat then 0 else a i j) * x j) = b i) /\
+  (forall i, (i < n)%nat ->
+     Rsum_n n (fun j => (if (i <? j)%nat then 0 else a i j) * forward_substitution a n b s0 j) = b i).
+Proof.
+  intros n a b s0 Hn Hd. split.
+  - apply back_substitution_solves; assumption.
+  - apply forward_substitution_solves; assumption.
+Qed.
+
+(* for a matrix that IS triangular the masked sum is the plain product *)
+Lemma c08_substitution_triangular : forall (n : nat) (a : mat R) (b s0 : vec R),
+  (0 < n)%nat -> (forall i, (i < n)%nat -> a i i <> 0) ->
+  ((forall i j, (j < i < n)%nat -> a i j = 0) ->
+   exists x, back_substitution a n b s0 = Ok x /\
+     forall i, (i < n)%nat -> Rsum_n n (fun j => a i j * x j) = b i) /\
+  ((forall i j, (i < j < n)%nat -> a i j = 0) ->
+   forall i, (i < n)%nat -> Rsum_n n (fun j => a i j * forward_substitution a n b s0 j) = b i).
+Proof.
+  intros n a b s0 Hn Hd. split; intro Ht.
+  - destruct (back_substitution_solves a n b s0 Hn Hd) as [x [E H]].
+    exists x. split; [exact E|]. intros i Hi. rewrite <- (H i Hi).
+    apply Rsum_n_ext. intros j Hj. bdestr; [rewrite Ht by lia; ring|reflexivity].
+  - intros i Hi. rewrite <- (forward_substitution_solves a n b s0 Hd i Hi).
+    apply Rsum_n_ext. intros j Hj. bdestr; [rewrite Ht by lia; ring|reflexivity].
+Qed.
+
+(* ---------------------------------------------------------------- the inner loops in closed form *)
+Lemma elim_row_spec n k i (a : mat R) (b : vec R) : (k < n)%nat -> i <> k ->
+  (forall i' j', fst (elim_row n k i (a, b)) i' j' =
+     if (i' =? i)%nat && (S k <=? j')%nat && (j' <? n)%nat
+     then a i j' - (a i k / a k k) * a k j' else a i' j') /\
+  (forall i', snd (elim_row n k i (a, b)) i' =
+     if (i' =? i)%nat then b i - (a i k / a k k) * b k else b i').
+Proof.
+  intros Hk Hik. unfold elim_row. cbn [fst snd ndiv nsub nmul RNum]. split.
+  - set (f := a i k / a k k).
+    pose (P := fun (t : nat) (m : mat R) => forall i' j', m i' j' =
+       if (i' =? i)%nat && (S k <=? j')%nat && (j' <? t)%nat then a i j' - f * a k j' else a i' j').
+    assert (HP : P (S k + (n - S k))%nat
+              (for_range (S k) (n - S k) (fun j m => mset m i j (m i j - f * m k j)) a)).
+    { apply (for_range_inv P).
+      - intros i' j'. bdestr; try lia; reflexivity.
+      - intros j m Hj HP i' j'. unfold mset. rewrite !HP.
+        bdestr; try lia; subst; try reflexivity; try lia. }
+    replace (S k + (n - S k))%nat with n in HP by lia. exact HP.
+  - intros i'. unfold vset. reflexivity.
+Qed.
+
+Lemma elim_below_spec n k (a : mat R) (b : vec R) : (k < n)%nat ->
+  (forall i j, fst (elim_below n k a b) i j =
+     if (S k <=? i)%nat && (i <? n)%nat && (S k <=? j)%nat && (j <? n)%nat
+     then a i j - (a i k / a k k) * a k j else a i j) /\
+  (forall i, snd (elim_below n k a b) i =
+     if (S k <=? i)%nat && (i <? n)%nat then b i - (a i k / a k k) * b k else b i).
+Proof.
+  intros Hk. unfold elim_below.
+  pose (P := fun (t : nat) (ab : mat R * vec R) =>
+    (forall i j, fst ab i j =
+       if (S k <=? i)%nat && (i <? t)%nat && (S k <=? j)%nat && (j <? n)%nat
+       then a i j - (a i k / a k k) * a k j else a i j) /\
+    (forall i, snd ab i =
+       if (S k <=? i)%nat && (i <? t)%nat then b i - (a i k / a k k) * b k else b i)).
+  assert (HP : P (S k + (n - S k))%nat (for_range (S k) (n - S k) (elim_row n k) (a, b))).
+  { apply (for_range_inv P).
+    - split; intros; cbn [fst snd]; bdestr; try lia; reflexivity.
+    - intros i [m v] Hi [HA HB]. cbn [fst snd] in HA, HB.
+      destruct (elim_row_spec n k i m v Hk ltac:(lia)) as [EA EB].
+      split.
+      + intros i' j'. rewrite EA, !HA.
+        bdestr; try lia; subst; try reflexivity; try lia.
+      + intros i'. rewrite EB, !HB, !HA.
+        bdestr; try lia; subst; try reflexivity; try lia. }
+  replace (S k + (n - S k))%nat with n in HP by lia. exact HP.
+Qed.
+
+Lemma pivot_row_range n (a : mat R) (s : vec R) k : (k < n)%nat ->
+  (k <= pivot_row n a s k < n)%nat.
+Proof.
+  intros Hk. unfold pivot_row, pivot_search.
+  pose (P := fun (t : nat) (bp : R * nat) => (k <= snd bp < t)%nat).
+  assert (HP : P (S k + (n - S k))%nat
+    (for_range (S k) (n - S k)
+       (fun ii bp => let temp := nabs (ndiv (a ii k) (s ii)) in
+                     if ngtb temp (fst bp) then (temp, ii) else bp)
+       (nabs (ndiv (a k k) (s k)), k))).
+  { apply (for_range_inv P).
+    - unfold P. cbn [snd]. lia.
+    - intros ii bp Hii HP. unfold P in *. cbv zeta.
+      destruct (ngtb _ _); cbn [snd]; lia. }
+  unfold P in HP. lia.
+Qed.
+
+(* both branches of partial_pivot are the (possibly trivial) swap of rows p and k *)
+Lemma partial_pivot_spec n (a : mat R) (b s : vec R) k : (k < n)%nat ->
+  exists p, (k <= p < n)%nat /\
+    (forall i j, fst (fst (partial_pivot n a b s k)) i j = mswap_rows a p k i j) /\
+    (forall i, snd (fst (partial_pivot n a b s k)) i = vswap b p k i).
+Proof.
+  intros Hk. exists (pivot_row n a s k). split; [apply pivot_row_range; exact Hk|].
+  unfold partial_pivot. destruct (Nat.eqb_spec (pivot_row n a s k) k) as [E|E]; cbn [fst snd].
+  - rewrite E. split; intros; unfold mswap_rows, vswap; bdestr; subst; reflexivity.
+  - split; reflexivity.
+Qed.
+
+(* ---------------------------------------------------------------- the invariant *)
+(* entries left of the diagonal in columns already eliminated are stale: read them as 0 *)
+Definition eff (k : nat) (a : mat R) : mat R :=
+  fun i j => if (j <? i)%nat && (j <? k)%nat then 0 else a i j.
+
+Definition esolves (n k : nat) (a : mat R) (b : vec R) (x : vec R) : Prop :=
+  forall i, (i < n)%nat -> Rsum_n n (fun j => eff k a i j * x j) = b i.
+
+Definition Inv (n : nat) (A0 : mat R) (b0 : vec R) (k : nat) (a : mat R) (b : vec R) : Prop :=
+  (forall x, esolves n k a b x -> forall i, (i < n)%nat -> Rsum_n n (fun j => A0 i j * x j) = b0 i) /\
+  (forall i, (i < k)%nat -> a i i <> 0).
+
+Lemma esolves_ext n k (a a' : mat R) (b b' x : vec R) :
+  (forall i j, (i < n)%nat -> (j < n)%nat -> a' i j = a i j) ->
+  (forall i, (i < n)%nat -> b' i = b i) ->
+  esolves n k a' b' x -> esolves n k a b x.
+Proof.
+  intros HA HB H i Hi. rewrite <- HB, <- (H i Hi) by exact Hi.
+  apply Rsum_n_ext. intros j Hj. unfold eff. rewrite HA by assumption. reflexivity.
+Qed.
+
+Lemma step_swap n k p (a : mat R) (b x : vec R) : (k <= p < n)%nat ->
+  esolves n k (mswap_rows a p k) (vswap b p k) x -> esolves n k a b x.
+Proof.
+  intros Hp H i Hi.
+  destruct (Nat.eq_dec i k) as [E1|E1]; [|destruct (Nat.eq_dec i p) as [E2|E2]].
+  - subst i. specialize (H p ltac:(lia)). unfold vswap in H. rewrite Nat.eqb_refl in H.
+    rewrite <- H. apply Rsum_n_ext. intros j Hj. unfold eff, mswap_rows.
+    bdestr; try lia; reflexivity.
+  - subst i. specialize (H k ltac:(lia)).
+    replace (vswap b p k k) with (b p) in H by (unfold vswap; bdestr; subst; congruence).
+    rewrite <- H. apply Rsum_n_ext. intros j Hj. unfold eff, mswap_rows.
+    bdestr; try lia; subst; reflexivity.
+  - specialize (H i Hi).
+    replace (vswap b p k i) with (b i) in H by (unfold vswap; bdestr; subst; congruence).
+    rewrite <- H. apply Rsum_n_ext. intros j Hj. unfold eff, mswap_rows.
+    bdestr; try lia; reflexivity.
+Qed.
+
+Lemma step_elim n k (a1 a2 : mat R) (b1 b2 x : vec R) : (k < n)%nat -> a1 k k <> 0 ->
+  (forall i j, (i < n)%nat -> (j < n)%nat -> a2 i j =
+     if (S k <=? i)%nat && (S k <=? j)%nat then a1 i j - (a1 i k / a1 k k) * a1 k j else a1 i j) ->
+  (forall i, (i < n)%nat -> b2 i = if (S k <=? i)%nat then b1 i - (a1 i k / a1 k k) * b1 k else b1 i) ->
+  esolves n (S k) a2 b2 x -> esolves n k a1 b1 x.
+Proof.
+  intros Hk Hp HA HB H i Hi.
+  destruct (Nat.leb_spec (S k) i) as [L|L].
+  - (* a row below the pivot: add the pivot row's equation back *)
+    set (f := a1 i k / a1 k k).
+    pose proof (H i Hi) as Ei. pose proof (H k Hk) as Ek.
+    rewrite HB in Ei, Ek by assumption.
+    destruct (Nat.leb_spec (S k) i) as [_|]; [|lia].
+    destruct (Nat.leb_spec (S k) k) as [|_]; [lia|].
+    fold f in Ei.
+    rewrite (Rsum_n_ext _ _ (fun j =>
+      (eff (S k) a2 i j * x j + f * (eff (S k) a2 k j * x j))
+      + (if (j =? k)%nat then (a1 i k - f * a1 k k) * x k else 0))).
+    + rewrite !Rsum_n_plus, Rsum_n_scal, Rsum_n_delta, Ei, Ek by exact Hk.
+      unfold f. field. exact Hp.
+    + intros j Hj. unfold eff. rewrite !HA by assumption. fold f.
+      bdestr; try lia; subst; ring.
+  - (* a row at or above the pivot is unchanged *)
+    pose proof (H i Hi) as Ei. rewrite HB in Ei by assumption.
+    destruct (Nat.leb_spec (S k) i) as [|_]; [lia|].
+    rewrite <- Ei. apply Rsum_n_ext. intros j Hj. unfold eff. rewrite HA by assumption.
+    bdestr; try lia; reflexivity.
+Qed.
+
+Lemma Inv_init n (A b : mat R) (b0 : vec R) : Inv n A b0 0 A b0.
+Proof.
+  split.
+  - intros x H i Hi. rewrite <- (H i Hi). apply Rsum_n_ext. intros j Hj.
+    unfold eff. bdestr; try lia; reflexivity.
+  - intros i Hi. lia.
+Qed.
+
+Lemma Rabs_div_zero (s : R) : Rabs (0 / s) = 0.
+Proof. unfold Rdiv. rewrite Rmult_0_l. apply Rabs_R0. Qed.
+
+Lemma pivot_test_nonzero (a s tol : R) : 0 < tol ->
+  nltb (nabs (ndiv a s)) tol = false -> a <> 0.
+Proof.
+  intros Ht H E. cbn [nltb nabs ndiv RNum] in H. apply Rltb_false in H.
+  subst a. rewrite Rabs_div_zero in H. lra.
+Qed.
+
+Lemma fe_step_inv n tol (A0 : mat R) (b0 : vec R) k st : 0 < tol -> (S k < n)%nat ->
+  fflag st = false -> Inv n A0 b0 k (fa st) (fb st) ->
+  fflag (fe_step n tol k st) = false ->
+  Inv n A0 b0 (S k) (fa (fe_step n tol k st)) (fb (fe_step n tol k st)).
+Proof.
+  intros Ht Hk Hfl [HI1 HI2]. unfold fe_step. rewrite Hfl.
+  assert (Hkn : (k < n)%nat) by lia.
+  destruct (partial_pivot_spec n (fa st) (fb st) (fs st) k Hkn) as [p [Hp [SA SB]]].
+  destruct (partial_pivot n (fa st) (fb st) (fs st) k) as [[a1 b1] s1]. cbn [fst snd] in SA, SB.
+  destruct (nltb (nabs (ndiv (a1 k k) (s1 k))) tol) eqn:Etest; cbn [fflag fa fb]; [discriminate|].
+  intros _.
+  pose proof (pivot_test_nonzero _ _ _ Ht Etest) as Hpiv.
+  destruct (elim_below_spec n k a1 b1 Hkn) as [EA EB].
+  set (ab := elim_below n k a1 b1) in *.
+  split.
+  - intros x Hx. apply HI1.
+    apply (step_swap n k p _ _ x Hp).
+    apply (esolves_ext n k _ a1 _ b1 x); [intros; apply SA|intros; apply SB|].
+    apply (step_elim n k a1 (fst ab) b1 (snd ab) x Hkn Hpiv).
+    + intros i j Hi Hj. rewrite EA. bdestr; try lia; reflexivity.
+    + intros i Hi. rewrite EB. bdestr; try lia; reflexivity.
+    + apply (esolves_ext n (S k) _ (retab n n (fst ab)) _ (vretab n (snd ab)) x).
+      * intros i j Hi Hj. apply retab_spec; assumption.
+      * intros i Hi. apply vretab_spec; assumption.
+      * exact Hx.
+  - intros i Hi. rewrite retab_spec by lia. rewrite EA.
+    destruct (Nat.leb_spec (S k) i) as [|_]; [lia|]. cbn [andb].
+    destruct (Nat.eq_dec i k) as [E|E]; [subst i; exact Hpiv|].
+    rewrite SA. unfold mswap_rows. bdestr; try lia. apply HI2. lia.
+Qed.
+
+Lemma fe_step_flagged n tol k (st : @fstate R) : fflag st = true -> fe_step n tol k st = st.
+Proof. intro H. unfold fe_step. rewrite H. reflexivity. Qed.
+
+Lemma fe_loop_inv n tol (A : mat R) (b s : vec R) : 0 < tol -> (0 < n)%nat ->
+  let st := for_range 0 (n - 1) (fe_step n tol) (mkf A b s false) in
+  fflag st = false -> Inv n A b (n - 1) (fa st) (fb st).
+Proof.
+  intros Ht Hn.
+  pose (P := fun (k : nat) (st : @fstate R) => fflag st = false -> Inv n A b k (fa st) (fb st)).
+  assert (HP : P (0 + (n - 1))%nat (for_range 0 (n - 1) (fe_step n tol) (mkf A b s false))).
+  { apply (for_range_inv P).
+    - intros _. cbn [fa fb]. apply Inv_init.
+    - intros i st Hi HP Hfl.
+      destruct (fflag st) eqn:E.
+      + rewrite (fe_step_flagged n tol i st E) in Hfl. congruence.
+      + apply fe_step_inv; try assumption; try lia. apply HP. reflexivity. }
+  exact HP.
+Qed.
+
+(* ---------------------------------------------------------------- c08_solves *)
+Lemma ge_ok_inv (h w lb : nat) (A : mat R) (b : vec R) (tol : R) (x : vec R) :
+  ge h w A lb b tol = Ok x ->
+  h = w /\ h = lb /\ (0 < h)%nat /\
+  let st := forward_elimination h tol A b (scale_vec h A) in
+  has_zero h (scale_vec h A) = false /\ fflag st = false /\
+  back_substitution (fa st) h (fb st) (vconst n0) = Ok x.
+Proof.
+  unfold ge.
+  destruct (Nat.eqb_spec h w) as [E1|E1]; cbn [negb]; [|discriminate].
+  destruct (Nat.eqb_spec h lb) as [E2|E2]; cbn [negb]; [|discriminate].
+  destruct (Nat.eqb_spec h 0) as [E3|E3]; [discriminate|].
+  destruct (has_zero h (scale_vec h A)); [discriminate|].
+  destruct (fflag (forward_elimination h tol A b (scale_vec h A))) eqn:Efl; [discriminate|].
+  intro H. repeat split; try assumption; try lia.
+Qed.
+
+Lemma forward_elimination_unflagged n tol (A : mat R) (b s : vec R) :
+  fflag (forward_elimination n tol A b s) = false ->
+  let st := for_range 0 (n - 1) (fe_step n tol) (mkf A b s false) in
+  forward_elimination n tol A b s = st /\ fflag st = false /\
+  nltb (nabs (ndiv (fa st (n - 1) (n - 1)) (fs st (n - 1)))) tol = false.
+Proof.
+  unfold forward_elimination. cbv zeta.
+  destruct (fflag (for_range 0 (n - 1) (fe_step n tol) (mkf A b s false))) eqn:E.
+  - intro H. congruence.
+  - destruct (nltb _ tol) eqn:E2; cbn [fflag]; intro H; [discriminate|].
+    repeat split; assumption.
+Qed.
+
+Lemma c08_solves : forall (h w lb : nat) (A : mat R) (b : vec R) (tol : R) (x : vec R),
+  0 < tol -> ge h w A lb b tol = Ok x ->
+  h = w /\ h = lb /\ forall i, (i < h)%nat -> Rsum_n h (fun j => A i j * x j) = b i.
+Proof.
+  intros h w lb A b tol x Ht H.
+  destruct (ge_ok_inv _ _ _ _ _ _ _ H) as [E1 [E2 [Hn [_ [Hfl Hbs]]]]].
+  split; [exact E1|]. split; [exact E2|].
+  destruct (forward_elimination_unflagged h tol A b _ Hfl) as [EF [Hfl2 Hlast]].
+  rewrite EF in Hbs.
+  set (st := for_range 0 (h - 1) (fe_step h tol) (mkf A b (scale_vec h A) false)) in *.
+  destruct (fe_loop_inv h tol A b (scale_vec h A) Ht Hn Hfl2) as [HI1 HI2]. fold st in HI1, HI2.
+  assert (Hd : forall i, (i < h)%nat -> fa st i i <> 0).
+  { intros i Hi. destruct (Nat.eq_dec i (h - 1)) as [E|E].
+    - subst i. exact (pivot_test_nonzero _ _ _ Ht Hlast).
+    - apply HI2. lia. }
+  destruct (back_substitution_solves (fa st) h (fb st) (vconst n0) Hn Hd) as [x' [Ex Hx]].
+  rewrite Ex in Hbs. injection Hbs as <-.
+  apply HI1. intros i Hi. rewrite <- (Hx i Hi).
+  apply Rsum_n_ext. intros j Hj. unfold eff. bdestr; try lia; reflexivity.
+Qed.
+
+(* ---------------------------------------------------------------- the flag does not depend on b *)
+Lemma elim_below_fst_indep n k lo len (a : mat R) (b b' : vec R) :
+  fst (for_range lo len (elim_row n k) (a, b)) = fst (for_range lo len (elim_row n k) (a, b')).
+Proof.
+  revert lo a b b'. induction len as [|len IH]; intros lo a b b'; [reflexivity|].
+  cbn [for_range]. unfold elim_row at 2 4. cbn [fst snd]. apply IH.
+Qed.
+
+Definition same_but_b (st st' : @fstate R) : Prop :=
+  fa st = fa st' /\ fs st = fs st' /\ fflag st = fflag st'.
+
+Lemma fe_step_indep n tol k st st' : same_but_b st st' ->
+  same_but_b (fe_step n tol k st) (fe_step n tol k st').
+Proof.
+  destruct st as [a b s fl], st' as [a' b' s' fl']. unfold same_but_b. cbn [fa fs fflag].
+  intros [<- [<- <-]]. unfold fe_step. cbn [fa fb fs fflag].
+  destruct fl; cbn [fa fs fflag]; [repeat split|].
+  unfold partial_pivot.
+  destruct (pivot_row n a s k =? k)%nat.
+  - destruct (nltb (nabs (ndiv (a k k) (s k))) tol); cbn [fa fs fflag]; [repeat split|].
+    unfold elim_below. rewrite (elim_below_fst_indep n k (S k) (n - S k) a b b'). repeat split.
+  - set (a1 := mswap_rows a _ k). set (s1 := vswap s _ k).
+    destruct (nltb (nabs (ndiv (a1 k k) (s1 k))) tol); cbn [fa fs fflag]; [repeat split|].
+    unfold elim_below. rewrite (elim_below_fst_indep n k (S k) (n - S k) a1 _ (vswap b' (pivot_row n a s k) k)).
+    repeat split.
+Qed.
+
+Lemma fe_loop_indep n tol lo len st st' : same_but_b st st' ->
+  same_but_b (for_range lo len (fe_step n tol) st) (for_range lo len (fe_step n tol) st').
+Proof.
+  revert lo st st'. induction len as [|len IH]; intros lo st st' H; [exact H|].
+  cbn [for_range]. apply IH. apply fe_step_indep. exact H.
+Qed.
+
+Lemma forward_elimination_flag_indep n tol (A : mat R) (b b' s : vec R) :
+  fflag (forward_elimination n tol A b s) = fflag (forward_elimination n tol A b' s).
+Proof.
+  unfold forward_elimination. cbv zeta.
+  assert (H : same_but_b (mkf A b s false) (mkf A b' s false)) by (repeat split).
+  destruct (fe_loop_indep n tol 0 (n - 1) _ _ H) as [EA [ES EF]].
+  rewrite <- EF, <- EA, <- ES.
+  destruct (fflag (for_range 0 (n - 1) (fe_step n tol) (mkf A b s false))) eqn:E.
+  - rewrite <- EF. reflexivity.
+  - destruct (nltb _ tol); [reflexivity|]. rewrite <- EF. reflexivity.
+Qed.
+
+Lemma ge_ok_any_rhs n (A : mat R) (b b' : vec R) tol x :
+  ge n n A n b tol = Ok x -> exists x', ge n n A n b' tol = Ok x'.
+Proof.
+  intro H. destruct (ge_ok_inv _ _ _ _ _ _ _ H) as [_ [_ [Hn [Hz [Hfl _]]]]].
+  unfold ge. rewrite Nat.eqb_refl. cbn [negb].
+  destruct (Nat.eqb_spec n 0) as [E|E]; [lia|].
+  rewrite Hz, (forward_elimination_flag_indep n tol A b' b), Hfl.
+  destruct n as [|m]; [lia|]. eexists. reflexivity.
+Qed.
+
+Lemma ge_square_cases n (A : mat R) (b : vec R) tol : (0 < n)%nat ->
+  ge n n A n b tol = Err ESingularMatrix \/ exists x, ge n n A n b tol = Ok x.
+Proof.
+  intro Hn. unfold ge. rewrite Nat.eqb_refl. cbn [negb].
+  destruct (Nat.eqb_spec n 0) as [E|E]; [lia|].
+  destruct (has_zero n (scale_vec n A)); [left; reflexivity|].
+  destruct (fflag _); [left; reflexivity|].
+  right. destruct n as [|m]; [lia|]. eexists. reflexivity.
+Qed.
+
+Lemma c08_singular_refused : forall (n : nat) (A : mat R) (tol : R), 0 < tol ->
+  (exists w : vec R, (exists i, (i < n)%nat /\ w i <> 0) /\
+      forall j, (j < n)%nat -> Rsum_n n (fun i => w i * A i j) = 0) ->
+  forall b : vec R, ge n n A n b tol = Err ESingularMatrix.
+Proof.
+  intros n A tol Ht [w [[i0 [Hi0 Hw0]] Hw]] b.
+  destruct (ge_square_cases n A b tol ltac:(lia)) as [E|[x E]]; [exact E|exfalso].
+  destruct (ge_ok_any_rhs n A b (fun j => if (j =? i0)%nat then 1 else 0) tol x E) as [x' E'].
+  destruct (c08_solves _ _ _ _ _ _ _ Ht E') as [_ [_ Hs]].
+  apply Hw0.
+  assert (H1 : Rsum_n n (fun i => w i * Rsum_n n (fun j => A i j * x' j)) = w i0).
+  { rewrite (Rsum_n_ext _ _ (fun i => if (i =? i0)%nat then w i0 else 0)).
+    - apply Rsum_n_delta. exact Hi0.
+    - intros i Hi. rewrite (Hs i Hi). bdestr; subst; ring. }
+  rewrite <- H1.
+  rewrite (Rsum_n_ext _ _ (fun i => Rsum_n n (fun j => w i * A i j * x' j))).
+  - rewrite Rsum_n_swap. apply Rsum_n_zero. intros j Hj.
+    rewrite (Rsum_n_ext _ _ (fun i => x' j * (w i * A i j))) by (intros; ring).
+    rewrite Rsum_n_scal, (Hw j Hj). ring.
+  - intros i Hi. rewrite <- Rsum_n_scal. apply Rsum_n_ext. intros; ring.
+Qed.
+
+(* ---------------------------------------------------------------- shape *)
 Lemma back_substitution_no_panic (a : mat R) n b s0 : (n <> 0)%nat ->
   exists x, back_substitution a n b s0 = Ok x.
 Proof. intro H. destruct n as [|m]; [congruence|]. eexists. reflexivity. Qed.
